@@ -1,2 +1,110 @@
-(* C12 -- theorems are being added *)
-From ZK Require Import Laws.
+(* C12 -- signature update over any history of updates.  upd_nth i v l replaces position i; run_updates folds
+   update_signature over a list of (position, new value) pairs, stating the current value as the old one. *)
+From ZK Require Import Laws BaseLemmas ModelLemmas SignProofs UpdateProofs.
+
+(* invariant over histories (induction on the update list): whenever the run returns, the current signature verifies for
+   the current vector, with the exponent of the original signature *)
+Theorem C12_update_history_inv :
+  forall (E : env) (LW : Laws E) sk header ups s msgs sk' msgs',
+  suite_ok E ->
+  verify E s (sk_to_pk E sk) (Some msgs) header = Ok tt ->
+  run_updates E s sk msgs ups = Ok (sk', msgs') ->
+  msgs' = apply_updates msgs ups /\ length msgs' = length msgs /\
+  sig_e E sk' = sig_e E s /\
+  verify E sk' (sk_to_pk E sk) (Some msgs') header = Ok tt.
+Proof. exact update_history_inv. Qed.
+Check (C12_update_history_inv :
+  forall (E : env) (LW : Laws E) sk header ups s msgs sk' msgs',
+  suite_ok E ->
+  verify E s (sk_to_pk E sk) (Some msgs) header = Ok tt ->
+  run_updates E s sk msgs ups = Ok (sk', msgs') ->
+  msgs' = apply_updates msgs ups /\ length msgs' = length msgs /\
+  sig_e E sk' = sig_e E s /\
+  verify E sk' (sk_to_pk E sk) (Some msgs') header = Ok tt).
+Print Assumptions C12_update_history_inv.
+
+Theorem C12_update_step_valid :
+  forall (E : env) (LW : Laws E) sk s msgs header i v s',
+  suite_ok E ->
+  verify E s (sk_to_pk E sk) (Some msgs) header = Ok tt ->
+  update_signature E s sk (nth (N.to_nat i) msgs []) v i (len msgs) = Ok s' ->
+  verify E s' (sk_to_pk E sk) (Some (upd_nth (N.to_nat i) v msgs)) header = Ok tt /\
+  sig_e E s' = sig_e E s /\ sig_A E s' <> g1_zero (PR E).
+Proof. exact update_step_valid. Qed.
+Check (C12_update_step_valid :
+  forall (E : env) (LW : Laws E) sk s msgs header i v s',
+  suite_ok E ->
+  verify E s (sk_to_pk E sk) (Some msgs) header = Ok tt ->
+  update_signature E s sk (nth (N.to_nat i) msgs []) v i (len msgs) = Ok s' ->
+  verify E s' (sk_to_pk E sk) (Some (upd_nth (N.to_nat i) v msgs)) header = Ok tt /\
+  sig_e E s' = sig_e E s /\ sig_A E s' <> g1_zero (PR E)).
+Print Assumptions C12_update_step_valid.
+
+(* a step returns a signature except on the negligible set where the new B is the identity (then Err) *)
+Theorem C12_update_step_total :
+  forall (E : env) (LW : Laws E) sk s msgs header i v,
+  suite_ok E ->
+  verify E s (sk_to_pk E sk) (Some msgs) header = Ok tt ->
+  (i < len msgs)%N -> (len msgs < usize_max - 1)%N -> fadd (SO E) sk (sig_e E s) <> f0 (SO E) ->
+  (exists s', update_signature E s sk (nth (N.to_nat i) msgs []) v i (len msgs) = Ok s') \/
+  (update_signature E s sk (nth (N.to_nat i) msgs []) v i (len msgs) = Err /\
+   forall e' B, sign_eB E (Some (upd_nth (N.to_nat i) v msgs)) sk (sk_to_pk E sk) header = Ok (e', B) -> B = g1_zero (PR E)).
+Proof. exact update_step_total. Qed.
+Check (C12_update_step_total :
+  forall (E : env) (LW : Laws E) sk s msgs header i v,
+  suite_ok E ->
+  verify E s (sk_to_pk E sk) (Some msgs) header = Ok tt ->
+  (i < len msgs)%N -> (len msgs < usize_max - 1)%N -> fadd (SO E) sk (sig_e E s) <> f0 (SO E) ->
+  (exists s', update_signature E s sk (nth (N.to_nat i) msgs []) v i (len msgs) = Ok s') \/
+  (update_signature E s sk (nth (N.to_nat i) msgs []) v i (len msgs) = Err /\
+   forall e' B, sign_eB E (Some (upd_nth (N.to_nat i) v msgs)) sk (sk_to_pk E sk) header = Ok (e', B) -> B = g1_zero (PR E))).
+Print Assumptions C12_update_step_total.
+
+(* the current signature equals the one the key holder obtains for the current vector with the same exponent *)
+Theorem C12_update_is_signers_signature :
+  forall (E : env) (LW : Laws E) sk pk header s msgs e' B,
+  pk = sk_to_pk E sk ->
+  verify E s pk (Some msgs) header = Ok tt ->
+  sign_eB E (Some msgs) sk pk header = Ok (e', B) ->
+  fadd (SO E) sk (sig_e E s) <> f0 (SO E) ->
+  sig_A E s = g1_mul (PR E) (finv (SO E) (fadd (SO E) sk (sig_e E s))) B.
+Proof. exact update_is_signers_signature. Qed.
+Check (C12_update_is_signers_signature :
+  forall (E : env) (LW : Laws E) sk pk header s msgs e' B,
+  pk = sk_to_pk E sk ->
+  verify E s pk (Some msgs) header = Ok tt ->
+  sign_eB E (Some msgs) sk pk header = Ok (e', B) ->
+  fadd (SO E) sk (sig_e E s) <> f0 (SO E) ->
+  sig_A E s = g1_mul (PR E) (finv (SO E) (fadd (SO E) sk (sig_e E s))) B).
+Print Assumptions C12_update_is_signers_signature.
+
+(* out-of-range position: refused with an error, whatever the values (no panic: C08) *)
+Theorem C12_update_oob :
+  forall (E : env) s sk old_m new_m ui n, (n <= ui)%N -> update_signature E s sk old_m new_m ui n = Err.
+Proof. exact update_oob. Qed.
+Check (C12_update_oob :
+  forall (E : env) s sk old_m new_m ui n, (n <= ui)%N -> update_signature E s sk old_m new_m ui n = Err).
+Print Assumptions C12_update_oob.
+
+(* a wrong old value never verifies for the intended vector, unless the two old values collide under the
+   message-to-scalar hash or the generator at that position is the identity *)
+Theorem C12_update_wrong_old :
+  forall (E : env) (LW : Laws E) sk s msgs header i v old' s',
+  suite_ok E ->
+  verify E s (sk_to_pk E sk) (Some msgs) header = Ok tt ->
+  update_signature E s sk old' v i (len msgs) = Ok s' ->
+  hm E old' <> hm E (nth (N.to_nat i) msgs []) ->
+  (forall g, gens_create E (length msgs + 1) (c_api_id (cs E)) = Ok g ->
+             nth (N.to_nat i) (skipn 1 (g_values E g)) (g1_zero (PR E)) <> g1_zero (PR E)) ->
+  verify E s' (sk_to_pk E sk) (Some (upd_nth (N.to_nat i) v msgs)) header = Err.
+Proof. exact update_wrong_old. Qed.
+Check (C12_update_wrong_old :
+  forall (E : env) (LW : Laws E) sk s msgs header i v old' s',
+  suite_ok E ->
+  verify E s (sk_to_pk E sk) (Some msgs) header = Ok tt ->
+  update_signature E s sk old' v i (len msgs) = Ok s' ->
+  hm E old' <> hm E (nth (N.to_nat i) msgs []) ->
+  (forall g, gens_create E (length msgs + 1) (c_api_id (cs E)) = Ok g ->
+             nth (N.to_nat i) (skipn 1 (g_values E g)) (g1_zero (PR E)) <> g1_zero (PR E)) ->
+  verify E s' (sk_to_pk E sk) (Some (upd_nth (N.to_nat i) v msgs)) header = Err).
+Print Assumptions C12_update_wrong_old.
